@@ -369,6 +369,75 @@ theorem quantis_leaves_old_untouched {e0 e1 : Ens} {old0 old1 : List Frame} {scA
       subst h
       exact hpf
 
+/-! ### the high-acceptance rule of the zero swap (wire fencing in [0-] or [0+]) -/
+
+theorem cw_ok {p : List Frame} {e : Ens} {w : Nat} (h : cw p e = .ok w) :
+    WF.computeWeight (ops p) e.i0 e.i1 e.w2 e.wf = .ok w := by
+  unfold cw at h
+  split at h
+  · cases h
+  · split at h
+    · rename_i hw
+      simp only [Except.ok.injEq] at h
+      rw [hw, h]
+    · cases h
+
+/-- **the swap's acceptance ratio uses the weights at the cap.**  `high_acc_swap` accepts exactly when
+    `ξ < (c1_new·c2_new)/(c1_old·c2_old)` (1 if a denominator weight is 0; strict `<` as in the code), and
+    each of the four weights is `WF.computeWeight` — C10's weight — of the new [0+] path / the old [0+] path
+    with the interfaces `[i0, i1, w2]`, where `w2 = tis_set["interface_cap"]` if it is set and the last
+    interface otherwise (`Ens.w2`), i.e. the same right boundary `calc_cv_vector` and `wire_fencing` use. -/
+theorem high_acc_uses_cap_weights {e0 e1 : Ens} {path1 old1 : List Frame} {xi : Rat} {a : Bool}
+    (h : highAcc e0 e1 path1 old1 xi = .ok a) :
+    ∃ c1o c2o c1n c2n : Nat,
+      WF.computeWeight (ops path1) e0.i0 e0.i1 e0.w2 e0.wf = .ok c1o ∧
+      WF.computeWeight (ops old1) e1.i0 e1.i1 e1.w2 e1.wf = .ok c2o ∧
+      WF.computeWeight (ops old1) e0.i0 e0.i1 e0.w2 e0.wf = .ok c1n ∧
+      WF.computeWeight (ops path1) e1.i0 e1.i1 e1.w2 e1.wf = .ok c2n ∧
+      (a = true ↔ xi < (if c1o = 0 ∨ c2o = 0 then (1 : Rat)
+                        else ((c1n * c2n : Nat) : Rat) / ((c1o * c2o : Nat) : Rat))) := by
+  unfold highAcc at h
+  cases h1 : cw path1 e0 with
+  | error x => simp [h1] at h
+  | ok c1o =>
+    cases h2 : cw old1 e1 with
+    | error x => simp [h1, h2] at h
+    | ok c2o =>
+      cases h3 : cw old1 e0 with
+      | error x => simp [h1, h2, h3] at h
+      | ok c1n =>
+        cases h4 : cw path1 e1 with
+        | error x => simp [h1, h2, h3, h4] at h
+        | ok c2n =>
+          simp only [h1, h2, h3, h4, Except.ok.injEq] at h
+          refine ⟨c1o, c2o, c1n, c2n, cw_ok h1, cw_ok h2, cw_ok h3, cw_ok h4, ?_⟩
+          rw [← h]; simp
+
+/-- when both new paths are fine and one of the two ensembles uses wire fencing, the outcome of
+    `retis_swap_zero` is decided by `high_acc_swap` alone: one number is drawn, ACC or HAS; and the weights
+    put on the new paths are again `computeWeight` at the cap (1 for a non-wf ensemble). -/
+theorem has_rule {e0 e1 : Ens} {old1 path0 path1 : List Frame} {reqs : List Req} {xi : Rat} {r : Result}
+    (h : finish e0 e1 old1 path0 path1 reqs xi = .ok r)
+    (h0 : status0 e0 path0 = .ACC) (h1 : status1 e1 path1 = .ACC) (hwf : (e0.wf || e1.wf) = true) :
+    ∃ a, highAcc e0 e1 path1 old1 xi = .ok a ∧ r.accept = a ∧
+      r.status = (if a then Status.ACC else Status.HAS) ∧ r.draws = 1 ∧
+      finalWeight path0 e0 = .ok r.w0 ∧ finalWeight path1 e1 = .ok r.w1 := by
+  unfold finish at h
+  simp only [h0, h1, hwf, decide_true, Bool.and_self, Bool.and_true, if_true] at h
+  cases hh : highAcc e0 e1 path1 old1 xi with
+  | error x => simp [hh] at h
+  | ok a =>
+    simp only [hh] at h
+    cases hw0 : finalWeight path0 e0 with
+    | error x => simp [hw0] at h
+    | ok w0 =>
+      cases hw1 : finalWeight path1 e1 with
+      | error x => simp [hw0, hw1] at h
+      | ok w1 =>
+        simp only [hw0, hw1, Except.ok.injEq] at h
+        subst h
+        exact ⟨a, rfl, rfl, rfl, rfl, rfl, rfl⟩
+
 /-! ### swapping twice -/
 
 theorem det_unfold {st : Cfg → Cfg} {opf : Cfg → Int} {vf : Cfg → Option Int} {n : Nat} {e0 e1 : Ens}
